@@ -125,6 +125,11 @@ def ga_worker(job):
             problems.append(("types", "output lacks type %s" % tname(t), None))
         elif not same_elems(out[t], exp[t]):
             problems.append(("definition", "block %s is not the group average (1/|G|) sum_g g^-1.M(g.x): %s" % (tname(t), first_diff(out[t], exp[t])), site_of(out[t])))
+    # the average is handed back with the inner model's declared output types in the inner model's order (a wrapper that
+    # re-orders the blocks -- e.g. by a pytree round trip that sorts the keys -- breaks block-for-block use against a target)
+    want_order = [tuple(t) for t, _ in out_sig]
+    if not problems and list(out.keys()) != want_order:
+        problems.append(("order", "the averaged output holds its types in order %s; the inner model emits %s" % (list(out.keys()), want_order), None))
     if problems:
         return dict(cfg=cfg, problems=problems)
     # direct equivariance for the uninterpreted inner model: wrapper(h.x) == h.wrapper(x)
